@@ -21,7 +21,7 @@ class InjectError(Exception):
 
 
 def parse_loops_file(path):
-    spec = {"file": None, "functions": {}}
+    spec = {"file": None, "functions": {}, "guard": None}
     cur_f, cur_l = None, None
     for raw in open(path):
         line = raw.rstrip("\n")
@@ -30,11 +30,14 @@ def parse_loops_file(path):
             continue
         if s.startswith("file:"):
             spec["file"] = s.split(":", 1)[1].strip()
+        elif s.startswith("guard:"):
+            # optional: the clauses of this table are wrapped in #ifdef <macro>; only units that #define it see them
+            spec["guard"] = s.split(":", 1)[1].strip()
         elif s.startswith("function:"):
             m = re.match(r"function:\s*(\w+)\s+loops=(\d+)", s)
             if not m:
                 raise InjectError(f"{path}: bad line {s}")
-            cur_f = {"count": int(m.group(2)), "loops": {}}
+            cur_f = {"count": int(m.group(2)), "loops": {}, "guard": spec.get("guard")}
             spec["functions"][m.group(1)] = cur_f
             cur_l = None
         elif s.startswith("loop "):
@@ -199,7 +202,10 @@ def inject(text, spec):
         for ordn, l in f["loops"].items():
             if not (1 <= ordn <= len(sites)):
                 raise InjectError(f"{fname}: loop ordinal {ordn} out of range")
-            block = "\n" + "".join(f"{cl} {MARK}\n" for cl in l["clauses"])
+            lines = list(l["clauses"])
+            if f.get("guard"):
+                lines = [f"#ifdef {f['guard']}"] + lines + ["#endif"]
+            block = "\n" + "".join(f"{cl} {MARK}\n" for cl in lines)
             inserts.append((sites[ordn - 1], block))
             nloops += 1
     out = text
